@@ -94,6 +94,10 @@ def sources(tier, seed, ctx):
                                  'host': {'seed': rng.randrange(10**6), 'ni': 3, 'ng': 4} if (n + m) % 3 == 0 and n + m <= 5 else None})
         for n, m, big in [(18, 18, True), (20, 17, False), (21, 24, True)] + ([] if tier == 'quick' else [(33, 33, True), (40, 20, False)]):
             srcs.append({'fn': 'mul', 'n': n, 'm': m, 'mode': mode, 'big': big, 'gen': False, 'host': None})
+    # one operand of width 1 against a wide one (the n+m-1 result-width rule beyond the recursion thresholds)
+    for mode in MODES:
+        for n, m, big in [(18, 1, False), (20, 1, True), (1, 21, False)] + ([] if tier == 'quick' else [(33, 1, True), (1, 40, False)]):
+            srcs.append({'fn': 'mul', 'n': n, 'm': m, 'mode': mode, 'big': big, 'gen': True, 'host': None})
     # nested Karatsuba recursion (max width >= 33) in both endiannesses
     for n, m, big in ([(33, 33, True), (34, 33, False), (36, 35, True), (33, 40, True)] if tier == 'quick' else [(33, 33, True), (34, 33, False), (35, 40, True), (36, 36, True), (41, 33, False)]):
         for mode in ('KARATSUBA', 'DEFAULT'):
